@@ -1208,14 +1208,23 @@ class TaskScenario(ScenarioData):
         # Calculate when each path would complete the task
 
         primary_end = self._estimateCompletionTime(primary_resources, effort)
-        alternative_end = self._estimateCompletionTime(alternative_resources, effort)
+
+        # Alternatives are candidates to replace the primary allocation, one at a
+        # time - never a team of all of them. Take the one that finishes first.
+        alternative_end = None
+        best_alternative = None
+        for candidate in alternative_resources:
+            candidate_end = self._estimateCompletionTime([candidate], effort)
+            if candidate_end is not None and (alternative_end is None or candidate_end < alternative_end):
+                alternative_end = candidate_end
+                best_alternative = candidate
 
         # Choose the path that finishes earlier
         if alternative_end is not None and (primary_end is None or alternative_end < primary_end):
             # Store which resource was selected for reporting
             if not hasattr(self, "_selectedAlternative"):
                 self._selectedAlternative = True
-            return alternative_resources
+            return [best_alternative]
         else:
             if not hasattr(self, "_selectedAlternative"):
                 self._selectedAlternative = False
